@@ -568,7 +568,7 @@ def t1_cases(draw):
         if ng > 6 and j == 0:
             text = ("apple " + text).strip()
         calls.append({"text": text, "prio": list(draw(st.permutations(list(range(ng)))))})
-    return {"graphs": graphs, "order": gids, "t1": t1, "cache": cache, "cache_n": cache_n, "perf": perf,
+    return {"free_runs": draw(st.sampled_from([0, 0, 2])), "graphs": graphs, "order": gids, "t1": t1, "cache": cache, "cache_n": cache_n, "perf": perf,
             "workers": draw(st.sampled_from([2, 2, 3, 4, 5, 6, 7, 8])), "off": draw(st.sampled_from(OFF_MODES)), "calls": calls,
             "validated": draw(st.sampled_from([False, False, False, True]))}
 
@@ -626,7 +626,7 @@ def _t1_cfg(case, parallel: bool):
     return world.to_attr({"t1": t1, "perf": perf})
 
 
-def run_t1_calls(case, parallel: bool):
+def run_t1_calls(case, parallel: bool, free: bool = False):
     """All calls of the case on one fresh process cache. -> list of ("ok", deltas, metrics, order) | ("exc", type name)."""
     import clematis.engine.stages.t1 as t1mod
 
@@ -635,16 +635,25 @@ def run_t1_calls(case, parallel: bool):
     inner = world.build_store({g: case["graphs"][g] for g in case["order"]})
     n = len(case["order"])
     out = []
-    if not parallel:
-        state = {"store": inner, "active_graphs": list(case["order"])}  # one engine state for all calls (it owns the stage cache)
-        for call in case["calls"]:
-            ctx = SimpleNamespace(cfg=cfg, config=cfg, agent_id="A", turn_id=1)
-            try:
-                res = t1mod.t1_propagate(ctx, state, call["text"])
-            except Exception as e:  # noqa: BLE001 - compared with the parallel run below
-                out.append(("exc", type(e).__name__, str(e)))
-                continue
-            out.append(("ok", copy.deepcopy(res.graph_deltas), copy.deepcopy(res.metrics), None))
+    if not parallel or free:
+        # sequential path — or (free) the parallel configuration on the engine's own thread pool, nothing gated, with a
+        # 1 us switch interval so that the per-graph tasks really overlap
+        import sys as _sys
+        old_si = _sys.getswitchinterval()
+        if free:
+            _sys.setswitchinterval(1e-6)
+        try:
+            state = {"store": inner, "active_graphs": list(case["order"])}  # one engine state for all calls (it owns the stage cache)
+            for call in case["calls"]:
+                ctx = SimpleNamespace(cfg=cfg, config=cfg, agent_id="A", turn_id=1)
+                try:
+                    res = t1mod.t1_propagate(ctx, state, call["text"])
+                except Exception as e:  # noqa: BLE001 - compared with the parallel run below
+                    out.append(("exc", type(e).__name__, str(e)))
+                    continue
+                out.append(("ok", copy.deepcopy(res.graph_deltas), copy.deepcopy(res.metrics), None))
+        finally:
+            _sys.setswitchinterval(old_si)
         return out, None
     store = GatedStore(inner, {g: i for i, g in enumerate(case["order"])})
     baseline = set(threading.enumerate())
@@ -701,6 +710,24 @@ def check_t1(case, rec=None):
                                 f"(cache holds {case['cache_n']} entries, fewer than the calls touch) (sequential, parallel): {diff}",
                                 case, "t1-cache-eviction-order")
             raise Violation(f"{where}: counters differ with completion order {order} (sequential, parallel): {diff}", case, "t1-counters")
+    for _ in range(int(case.get("free_runs") or 0)):
+        fr, _f = run_t1_calls(case, parallel=True, free=True)
+        for j, (a, b) in enumerate(zip(seq, fr)):
+            where = f"call {j + 1}/{len(seq)} (text {case['calls'][j]['text']!r}, graphs {case['order']}, workers {case['workers']}, cache {case['cache']})"
+            if a[0] == "exc" or b[0] == "exc":
+                if a[0] != b[0]:
+                    raise Violation(f"{where}: sequential {a[:3]} but free-running parallel {b[:3]}", case, "t1-free-raises-differ")
+                continue
+            if a[1] != b[1]:
+                raise Violation(f"{where}: graph_deltas of the free-running parallel path (real thread pool, 1 us switch interval) differ "
+                                f"from sequential: {[d.get('id') for d in a[1]]} vs {[d.get('id') for d in b[1]]}", case, "t1-free-deltas")
+            ma, mb = _strip(a[2], T1_GATED_KEYS), _strip(b[2], T1_GATED_KEYS)
+            if ma != mb:
+                diff = {k: (ma.get(k), mb.get(k)) for k in sorted(set(ma) | set(mb)) if ma.get(k) != mb.get(k)}
+                if _t1_only_cache_dependent(diff, ma, mb) and _t1_cache_can_evict(case) and rec is not None and rec.is_known(F_T1_EVICT):
+                    evict_excluded = True
+                    continue
+                raise Violation(f"{where}: counters of the free-running parallel path differ (sequential, parallel): {diff}", case, "t1-free-counters")
     if rec is not None:
         seeded = 0
         for gid in case["order"]:
@@ -873,7 +900,7 @@ def t2_cases(draw):
                         "text": " ".join(draw(st.lists(st.sampled_from(ep_words + world.VOCAB[:3]), min_size=1, max_size=3)))})
         if draw(st.booleans()):
             t2["owner_scope"] = "agent"
-    return {"pre": pre, "eps": eps, "graphs": graphs, "t2": t2, "agent": agent, "text": text, "t1_ids": t1_ids,
+    return {"free_runs": draw(st.sampled_from([0, 0, 2])), "pre": pre, "eps": eps, "graphs": graphs, "t2": t2, "agent": agent, "text": text, "t1_ids": t1_ids,
             "slice_k": draw(st.sampled_from([None, None, None, 0, 1, 2])), "workers": draw(st.sampled_from([3, 3, 4, 5, 6] if skewed else [2, 2, 3, 4, 5, 6, 8])),
             "prio": list(draw(st.permutations(list(range(12))))), "off": draw(st.sampled_from(OFF_MODES)),
             "metrics_gate": draw(st.sampled_from([False, False, True])), "layers": layers}
@@ -883,7 +910,7 @@ def _t2_tiers(case):
     return list(case["t2"].get("tiers") or T2_TIERS)
 
 
-def run_t2_once(case, parallel: bool, tiers=None, known=None):
+def run_t2_once(case, parallel: bool, tiers=None, known=None, free=False):
     """-> (("ok", view) | ("exc", exception), info). view = comparable projection of the T2Result."""
     import clematis.engine.stages.t2.core as core
 
@@ -938,6 +965,19 @@ def run_t2_once(case, parallel: bool, tiers=None, known=None):
         except Exception as e:  # noqa: BLE001 - compared with the parallel run
             return ("exc", e), {}
         return ("ok", view(res)), {}
+    if free:
+        # the engine's own thread pool, nothing gated: shard tasks really overlap (1 us switch interval)
+        import sys as _sys
+        old_si = _sys.getswitchinterval()
+        _sys.setswitchinterval(1e-6)
+        try:
+            try:
+                res = core.t2_semantic(ctx, state, case["text"], t1)
+            except Exception as e:  # noqa: BLE001
+                return ("exc", e), {"free": True}
+        finally:
+            _sys.setswitchinterval(old_si)
+        return ("ok", view(res)), {"free": True}
     nsh = len(list(idx._iter_shards_for_t2("exact_semantic", suggested=w)))
     gate = Gate(nsh)
     prio = [p for p in case["prio"] if p < nsh]
@@ -1004,6 +1044,16 @@ def check_t2(case, rec=None):
         diff = _t2_diff(seq[1], par[1])
         if diff is not None:
             excluded = _classify_t2(case, rec, tiers, seq[1], par[1], diff, info, desc)
+        elif case.get("free_runs"):
+            # same case on the real thread pool with overlapping shard tasks (cold index every time)
+            for _ in range(int(case["free_runs"])):
+                fr, _fi = run_t2_once(case, True, known=known, free=True)
+                if fr[0] == "exc":
+                    raise Violation(f"free-running parallel t2_semantic raised {type(fr[1]).__name__}: {fr[1]} ({desc})", case, "t2-free-raises")
+                fdiff = _t2_diff(seq[1], fr[1])
+                if fdiff is not None:
+                    raise Violation(f"free-running parallel T2 (real thread pool, 1 us switch interval) differs from sequential although "
+                                    f"every gated completion order agrees: {fdiff} ({desc})", case, "t2-free-differs")
     if rec is not None:
         size = max(1, -(-len(case["eps"]) // max(1, min(int(case["workers"]), len(case["eps"])))))
         pos = {str(e["id"]): i // size for i, e in enumerate(case["eps"])}
